@@ -11,6 +11,7 @@ import (
 	"runtime"
 	"strconv"
 	"strings"
+	"sync"
 	"syscall"
 	"time"
 
@@ -22,17 +23,21 @@ import (
 
 // jobRun is the live state of one job inside an episode.
 type jobRun struct {
-	job   *Job
-	jid   uint32
-	res   *JobResult
-	state sinkState
-	model string
-	run   func() // the top-level library call
-	after func() // oracle evaluated inside the top-level goroutine right after the call returned
-	end   func() // oracle evaluated once the whole group is quiescent
+	probes      []string // noted by the job's own goroutine, merged by the scheduler when the group is done
+	faultsFired []string
+	job         *Job
+	jid         uint32
+	res         *JobResult
+	state       sinkState
+	model       string
+	run         func() // the top-level library call
+	after       func() // oracle evaluated inside the top-level goroutine right after the call returned
+	end         func() // oracle evaluated once the whole group is quiescent
 }
 
 type episode struct {
+	noteMu        sync.Mutex
+	lateNotes     []string
 	poolModels    map[string]sdf.SDF3
 	poolRenderers map[string]render3er
 	sc            *Scenario
@@ -142,7 +147,15 @@ func runEpisode(sc *Scenario) *Result {
 	}
 	bezierProfile() // fixed construction order: first thing in the process
 	signal.Ignore(syscall.SIGXFSZ)
-	dir, err := os.MkdirTemp(workDir(), "ep-")
+	root := workDir()
+	if sc.Seed%5 == 0 {
+		// a fifth of the episodes write to another file system than the temporary directory
+		if fi, err := os.Stat("/dev/shm"); err == nil && fi.IsDir() {
+			root = "/dev/shm"
+			ep.probes["output-on-another-filesystem"]++
+		}
+	}
+	dir, err := os.MkdirTemp(root, "sdfx-ep-")
 	if err != nil {
 		return fail("harness-error", "tmpdir", err.Error())
 	}
@@ -167,6 +180,7 @@ func runEpisode(sc *Scenario) *Result {
 	sim := simcore.New(policy, stepCap)
 	sim.Deadline = time.Now().Add(episodeWallLimit())
 	sim.StallAfter = 15 * time.Second
+	sim.SleepBound = 40 * time.Second
 	sim.Stats.RecordChoices = true
 	for s := simcore.Site(0); s < siteCount; s++ {
 		sim.SetSite(s, false, 0)
@@ -262,6 +276,21 @@ func runEpisode(sc *Scenario) *Result {
 			finish()
 			return fail("violation", "panic", firstLines(ps[0], 14))
 		}
+		for _, jr := range runs {
+			for _, p := range jr.probes {
+				ep.probes[p]++
+			}
+			for _, f := range jr.faultsFired {
+				ep.faults[f]++
+			}
+			jr.probes, jr.faultsFired = nil, nil
+		}
+		ep.noteMu.Lock()
+		for _, p := range ep.lateNotes {
+			ep.probes[p]++
+		}
+		ep.lateNotes = nil
+		ep.noteMu.Unlock()
 		for _, jr := range runs {
 			if jr.end != nil {
 				jr.end()
@@ -403,7 +432,7 @@ func (ep *episode) faultPath(j *Job, ext string) (string, error) {
 		base = filepath.Join(ep.dir, fmt.Sprintf("j%d-", j.ID)+strings.ReplaceAll(j.Name, "EXT", ext))
 	}
 	switch j.Fault.Kind {
-	case "", "fsize", "vanish":
+	case "", "fsize", "vanish", "emfile":
 		return base, nil
 	case "nodir":
 		return filepath.Join(ep.dir, "missing-dir", fmt.Sprintf("job%d.%s", j.ID, ext)), nil
@@ -429,12 +458,34 @@ func (ep *episode) withFault(j *Job, jr *jobRun, path string, call func()) func(
 				junk[i] = byte(r.Uint64())
 			}
 			os.WriteFile(path, junk, 0o644)
-			ep.probes["output-path-already-existed"]++
+			jr.probes = append(jr.probes, "output-path-already-existed")
 		}
 		if j.Fault.Kind == "fsize" {
 			if err := setFsize(j.Fault.Budget); err != nil {
 				panic("setrlimit: " + err.Error())
 			}
+		}
+		var hogs []*os.File
+		if j.Fault.Kind == "emfile" {
+			// the process is out of file descriptors: open(2) fails with EMFILE
+			var lim syscall.Rlimit
+			syscall.Getrlimit(syscall.RLIMIT_NOFILE, &lim)
+			low := lim
+			low.Cur = 64
+			syscall.Setrlimit(syscall.RLIMIT_NOFILE, &low)
+			for {
+				f, err := os.Open("/dev/null")
+				if err != nil {
+					break
+				}
+				hogs = append(hogs, f)
+			}
+			defer func() {
+				for _, f := range hogs {
+					f.Close()
+				}
+				syscall.Setrlimit(syscall.RLIMIT_NOFILE, &lim)
+			}()
 		}
 		call()
 		if j.Fault.Kind == "fsize" {
@@ -442,11 +493,11 @@ func (ep *episode) withFault(j *Job, jr *jobRun, path string, call func()) func(
 			if fi, err := os.Stat(path); err == nil && fi.Size() >= j.Fault.Budget {
 				jr.res.FaultFired = true
 				jr.res.FaultNote = fmt.Sprintf("file stopped at the %d-byte budget", j.Fault.Budget)
-				ep.faults["fsize"]++
+				jr.faultsFired = append(jr.faultsFired, "fsize")
 			}
 		} else if j.Fault.Kind != "" {
 			jr.res.FaultFired = true
-			ep.faults[j.Fault.Kind]++
+			jr.faultsFired = append(jr.faultsFired, j.Fault.Kind)
 		}
 	}
 }
@@ -461,7 +512,7 @@ func (ep *episode) prepare(j *Job, jres *JobResult) (*jobRun, error) {
 	switch j.Kind {
 	case "script3":
 		items := genTriangles(j.N, j.Coords, j.CoordSeed)
-		r := &script3{jid: jr.jid, batches: splitBatches(items, j.Batches), closeAt: intSet(j.CloseAt)}
+		r := &script3{jid: jr.jid, batches: splitBatches(items, j.Batches), closeAt: intSet(j.CloseAt), stall: time.Duration(j.StallMs) * time.Millisecond}
 		if j.Fault.Kind == "vanish" {
 			r.pre = func() { os.Remove(jr.state.path) }
 		}
@@ -470,7 +521,7 @@ func (ep *episode) prepare(j *Job, jres *JobResult) (*jobRun, error) {
 		return jr, ep.bind3(jr, nil, r, faulty)
 	case "script2":
 		items := genLines(j.N, j.Coords, j.CoordSeed)
-		r := &script2{jid: jr.jid, batches: splitBatches(items, j.Batches), closeAt: intSet(j.CloseAt)}
+		r := &script2{jid: jr.jid, batches: splitBatches(items, j.Batches), closeAt: intSet(j.CloseAt), stall: time.Duration(j.StallMs) * time.Millisecond}
 		if j.Fault.Kind == "vanish" {
 			r.pre = func() { os.Remove(jr.state.path) }
 		}
@@ -721,7 +772,7 @@ func (ep *episode) loadForeignSTL(seed uint64) Check {
 		return bad("stl-load", "LoadSTL of a valid binary STL with attribute bytes: %v", err)
 	}
 	c := compareLoaded(tris, mesh)
-	ep.probes["foreign-stl-loaded-first"]++
+	ep.jobNote(seed, "foreign-stl-loaded-first")
 	return c
 }
 
@@ -945,6 +996,13 @@ func (ep *episode) groupSize(j *Job) int {
 		}
 	}
 	return 1
+}
+
+// jobNote records a probe from a job goroutine (merged by the scheduler later).
+func (ep *episode) jobNote(_ uint64, name string) {
+	ep.noteMu.Lock()
+	ep.lateNotes = append(ep.lateNotes, name)
+	ep.noteMu.Unlock()
 }
 
 func intSet(xs []int) map[int]bool {
